@@ -220,10 +220,10 @@ def analyze(ctx, want):
 
     ctx.trust("regex-syntax parser/AST; std char predicates (is_numeric, is_whitespace, is_alphanumeric ...) and seshat-unicode property tables denote the documented sets")
 
-    def run(pat, max_paths=4000):
+    def run(pat, max_paths=4000, **kw):
         fn = F.fn(pat)
         ctx.analysed_fn(fn)
-        ex, paths = run_fn(fn, F, BaseModel(), inline=INLINE, max_paths=max_paths)
+        ex, paths = run_fn(fn, F, BaseModel(), inline=INLINE, max_paths=max_paths, **kw)
         if ex.truncated:
             ctx.missing("C08.b", "path enumeration of %s truncated" % fn.name)
         return fn, ex, paths
@@ -492,7 +492,7 @@ def analyze(ctx, want):
             ctx.floor("C08.b", "conversions in " + M.short_name(fn.name), n, 2)
 
     # =============================================================== union
-    fn, ex, paths = run(r"TryFrom<&regex_syntax::ast::ClassSetUnion>>::try_from$")
+    fn, ex, paths = run(r"TryFrom<&regex_syntax::ast::ClassSetUnion>>::try_from$", desugar=None)   # the fold is read as a term: seed and step closure are analysed separately
     for p in ret_paths(paths):
         tf = p.calls(r"Iterator>::try_fold::")
         ok = len(tf) == 1
@@ -611,35 +611,47 @@ def analyze(ctx, want):
         ob("C15.e", "unicode:%s-rejected" % k, v is True, "unknown %s unicode class %s" % (k, "is rejected with an error" if v else "is NOT rejected (%s)" % v), fn.loc())
 
     # =============================================================== one predicate per registered class, indexed by id
+    # whatever the loop is written as (try_fold with a pushing closure, a for loop with `?`): per registered class, in table
+    # order, its ast is converted and the predicate appended exactly once; a conversion error leaves the function as Err
     cm = F.fn(r"CharacterClassRegistry::create_match_char_class$")
     ctx.analysed_fn(cm)
     ex, paths = run_fn(cm, F, BaseModel(), inline=INLINE)
-    for p in ret_paths(paths):
-        r = p.end[1]
-        if r[0] == "adt" and r[2] == "Ok":
-            tf = p.calls(r"Iterator>::try_fold::")
-            adapters = [M.short_name(M.call_name(t)) for bb, t in cm.calls(r"Iterator>::(rev|skip|take|filter|filter_map|step_by|skip_while|take_while|chain|zip|cycle)\b|::(sort\w*|reverse|dedup\w*|retain|swap|rotate_\w+)$")]
-            ok = len(tf) == 1 and "self.character_classes" in S.vstr(tf[0][4] if tf[0][4] else tf[0][3][0]) and not adapters
-            ob("C08.e", "one-predicate-per-class-in-id-order", ok, "try_fold over %s; reordering/filtering calls: %s" % (S.vstr(tf[0][4] if tf and tf[0][4] else None)[:80] if tf else None, adapters), cm.loc())
+    adapters = [M.short_name(M.call_name(t)) for bb, t in cm.calls(r"Iterator>::(rev|skip|take|filter|filter_map|step_by|skip_while|take_while|chain|zip|cycle)\b|::(sort\w*|reverse|dedup\w*|retain|swap|rotate_\w+|insert|remove|swap_remove|truncate|pop)$")]
+    n_ok = n_err = 0
+    srcs = set()
+    okp = True
+    det = ""
+    for p in paths:
+        cv = [e for e in p.events if e[0] == "call" and re.search(r"TryInto<internal::match_function::MatchFunction>>::try_into$|MatchFunction as std::convert::TryFrom<&regex_syntax::ast::Ast>>::try_from$", e[2])]
+        if not cv:
+            continue
+        for e in p.events:
+            if e[0] in ("iter-item",):
+                srcs.add(S.fstr(e[3]))
+            if e[0] == "call" and re.search(r"iter::Iterator>::next$", e[2]):
+                srcs.add(S.fstr(ex.deref_val(p, e[3][0]) if e[3][0][0] == "ref" else e[3][0]))
+        a0 = S.fstr(cv[0][3][0])
+        from_item = "CharacterClass::ast" in a0 and "item@" in a0
+        pu = p.calls(r"Vec::<.*MatchFunction>::push$")
+        v = variant_of(ex, p, cv[0][4])
+        if v == "Err":
+            n_err += 1
+            ends_err = p.end[0] == "return" and variant_of(ex, p, p.end[1]) == "Err"
+            ob("C15.e", "classes:conversion-error-is-returned", ends_err and not pu, "conversion failed -> %s" % (S.vstr(p.end[1])[:50] if p.end[0] == "return" else p.end[0]), cm.loc())
+        else:
+            n_ok += 1
+            good = len(cv) == 1 and from_item and len(pu) == 1 and pu[0][3][1] == ("field", ("downcast", cv[0][4], "Ok"), "0") and p.end[0] == "cut"
+            if not good:
+                okp = False
+                det = "push(%s) of conversion(%s), then %s" % ([S.vstr(x[3][1])[:50] for x in pu], a0[:60], p.end[0])
+    ob("C08.e", "each-class-converted-and-pushed-once", okp and n_ok >= 1, det or "%d iteration path(s): convert CharacterClass::ast(item), push the predicate" % n_ok, cm.loc())
+    ob("C08.e", "one-predicate-per-class-in-id-order", bool(srcs) and all("self.character_classes" in x for x in srcs) and not adapters, "iteration over %s; reordering/filtering calls: %s" % (sorted(srcs), adapters), cm.loc())
+    ob("C15.e", "classes:both-outcomes", n_ok >= 1 and n_err >= 1, "iteration paths: %d converting, %d failing" % (n_ok, n_err), cm.loc())
     cls = F.closures_of(cm)
-    step = [c for c in cls if c.argc == 3]
-    idx = [c for c in cls if c.argc == 3 and False]
     for c in cls:
         names = c.names()
         if c.argc == 3 and "acc" in names.values():
-            ex2, ps = run_fn(c, F, BaseModel(), inline=INLINE)
-            okp = False
-            det = ""
-            for p in ps:
-                if p.end[0] != "return":
-                    continue
-                pu = p.calls(r"Vec::<.*MatchFunction>::push$")
-                cv = [e for e in p.events if e[0] == "call" and "TryInto<internal::match_function::MatchFunction>>::try_into" in e[2]]
-                r = p.end[1]
-                if r[0] == "adt" and r[2] == "Ok":
-                    okp = len(pu) == 1 and len(cv) == 1 and "CharacterClass::ast" in S.vstr(cv[0][3][0])
-                    det = "push(%s) of try_into(%s)" % (S.vstr(pu[0][3][1])[:60] if pu else None, S.vstr(cv[0][3][0])[:60] if cv else None)
-            ob("C08.e", "each-class-converted-and-pushed-once", okp, det, c.loc())
+            pass
         elif c.argc == 3:
             tt = eval_closure(F, ("closure", c.key, (("sym", "match_functions"),)), nargs=2)
             ok = False
